@@ -36,6 +36,7 @@ class XMLTransformer(XMLGenerator, LexicalHandler):
         self.results = results
         self.changes: list[Change] = []
         self._my_locator = Locator()
+        self._in_cdata = False
         self.line_only_matching = line_only_matching
         super().__init__(out, encoding, short_empty_elements)
 
@@ -46,6 +47,10 @@ class XMLTransformer(XMLGenerator, LexicalHandler):
         super().endElement(name)
 
     def characters(self, content):
+        if self._in_cdata:
+            # The content of a CDATA section is literal: it must not be escaped
+            self._write(content)  # type: ignore
+            return
         super().characters(content)
 
     def skippedEntity(self, name: str) -> None:
@@ -56,8 +61,10 @@ class XMLTransformer(XMLGenerator, LexicalHandler):
 
     def startCDATA(self):
         self._write("<![CDATA[")  # type: ignore
+        self._in_cdata = True
 
     def endCDATA(self):
+        self._in_cdata = False
         self._write("]]>")  # type: ignore
 
     def startDTD(self, name: str, public_id: str | None, system_id: str | None):
